@@ -38,6 +38,11 @@ EXTENT_FNS = {"carquet_bitunpack8_32": (0, ("arg", 1)), "carquet_bitunpack_32": 
 BP = "src/core/bitpack.c"
 
 
+def _ext(P, call, fn):
+    g = cursor.resolve(P, call.callee, fn)
+    return cursor.param_extents(P, g) if g is not None and g is not fn else {}
+
+
 def is_decoder(fn):
     n = fn.name
     if "decompress" in n or "decode" in n or "decoder" in n or "read" in n or "skip" in n:
@@ -56,8 +61,10 @@ def run(ctx):
     fns = [f for f in P.funcs_in(*DECODER_FILES) if is_decoder(f)]
     nreads = 0
     npairs = 0
+    all_reads = {}
     for fn in sorted(fns, key=lambda f: (f.file, f.line)):
         reads, pairs = cursor.analyse(P, fn)
+        all_reads[fn.name] = reads
         npairs += len(pairs)
         seen = {}
         for e, p, kc, kt, proven, facts in reads:
@@ -119,6 +126,16 @@ def run(ctx):
                     ctx.ob("R4.handoff", key, P.where(c),
                            "%s reads its declared extent at buf + %s; a dominating guard compares %s + that extent with %s"
                            % (c.callee, p.cursor.split("#")[0], p.cursor.split("#")[0], p.limit.split("#")[0]), ok)
+                elif ai in _ext(P, c, fn) and _ext(P, c, fn)[ai] < len(args):
+                    # the helper touches at most args[li] elements (proven in the helper); that count is
+                    # an access of this function, decided with the other cursor accesses above
+                    li = _ext(P, c, fn)[ai]
+                    hit = [r for r in all_reads.get(fn.name, ()) if r[0].i == c.i]
+                    ctx.ob("R4.handoff", key, P.where(c),
+                           "%s touches at most `%s` elements behind buf + %s (every access of the helper is proven "
+                           "below that parameter); the count is covered by the bytes available here"
+                           % (c.callee, src(args[li]), p.cursor.split("#")[0]), bool(hit) and all(r[4] for r in hit),
+                           "" if hit else "the call is not a recognised access of this function")
                 else:
                     ctx.bad("R4.handoff", key, P.where(c),
                             "%s receives a pointer into the input without its remaining length and has no declared extent" % c.callee)
